@@ -162,6 +162,7 @@ def frame_obligations(eng, want=("lemmas", "get_address", "init", "append", "val
     if "accessors" in want:
         e1 = S.FO(arr, 2, nn); e2 = S.FO(arr, e1 + 1, nn)
         specs += [
+            ("HdlcFrame.message_type", init_prop, lambda res: [("a message type is returned", z3.BoolVal(res is not None))]),
             ("HdlcFrame.__len__", init_prop, lambda res: [("result == number of octets", to_int(res) == nn)]),
             ("HdlcFrame.as_bytes", init_prop, lambda res: [("result == octets", bytes_eq(res, z3.BoolVal(True), 0, nn))]),
             ("HdlcFrame.payload", init_prop, lambda res: [("result == octets[cp+3 : n-2] when n > cp+3, else None", bytes_eq(res, z3.And(cp != -1, nn > cp + 3), cp + 3, z3.If(nn - 2 > cp + 3, nn - 2 - (cp + 3), 0)))]),
